@@ -681,7 +681,7 @@ def run(ctx):
 
 MANIFEST = {
     "category": "proof",
-    "text": "PARTIAL. Coq theorems, for every interleaving of the lock sections and any number of threads: the label index (runtime getKey / IndexToString: RLock lookup, Lock + re-check + append) never holds a duplicate, labelMap is the inverse of labels, the same string always gets the same index and different strings different indices, IndexToString(getKey s) = s, indices never change (the table only grows by appending), a call run alone equals the sequential get_key, and the variant without the re-check reaches a duplicate (exhibited schedule); par.Cache.Do runs f at most once per key, every caller that returns gets the result of that one run, no deadlock, every caller returns, different keys do not interfere, and the variant without the per-entry mutex runs f twice. Tie: histories of the real functions observed from 2-16 goroutines are accepted by the extracted executable checkers (proved complete and sound for the machines); sequential getKey agrees exactly with the model on snapshots of the real table. NOT proved: absence of data races and 'each API call on a shared cue.Value returns what it would return alone' - these are explored directly with a -race build (generated programs, PRNG-chosen multisets of LookupPath/Fields/Unify/FillPath/Validate/Default/Syntax/MarshalJSON/YAML/Decode/Kind/Equals/... from 2-16 goroutines on finalized and freshly compiled shared values and on values of different contexts, compared with a sequential baseline; any race report, panic, deadlock or differing result is a violation with program + calls + seed).",
+    "text": "PARTIAL. Coq theorems, for every interleaving of the lock sections and any number of threads: the label index (runtime getKey / IndexToString: RLock lookup, Lock + re-check + append) never holds a duplicate, labelMap is the inverse of labels, the same string always gets the same index and different strings different indices, IndexToString(getKey s) = s, indices never change (the table only grows by appending), a call run alone equals the sequential get_key, and the variant without the re-check reaches a duplicate (exhibited schedule); par.Cache.Do runs f at most once per key, every caller that returns gets the result of that one run, no deadlock, every caller returns, different keys do not interfere, and the variant without the per-entry mutex runs f twice. Tie: histories of the real functions observed from 2-16 goroutines are accepted by the extracted executable checkers (proved complete and sound for the machines); sequential getKey agrees exactly with the model on snapshots of the real table. NOT proved: absence of data races and 'each API call on a shared cue.Value returns what it would return alone' - these are explored directly with a -race build (generated programs, PRNG-chosen multisets of LookupPath/Fields/Unify/FillPath/Validate/Default/Syntax/MarshalJSON/YAML/Decode/Kind/Equals/... from 2-16 goroutines on finalized and freshly compiled shared values and on values of different contexts, compared with a sequential baseline; plus two targeted round kinds that always run: Decode into untagged Go structs whose fields match only case-insensitively (new spellings, same Go type, all goroutines at once) and pattern constraints with label aliases looked up through optional / AnyString / AnyIndex selectors on a fresh shared value, every answer compared with the answer of the call run ALONE on a private copy and the whole script re-run on the shared value afterwards; any race report, panic, deadlock or differing result is a violation with program + calls + seed).",
     "note": "Trusted: Coq kernel; hand-written models of index.go getKey/IndexToString and par.Cache.Do (lock sections and sync.Map operations assumed atomic); extraction and drivers; the re-export shim. The race-detector part is exploration: it can only find races on schedules that occur; evidence reports counts. Known finding F10 (in-place sort of a shared Conjunction's Values in export/value.go) is recognised by its stack signature and reported as KNOWN-FINDING.",
     "technique": "Coq proof (invariants over all interleavings of lock-section state machines) + extracted-model acceptance of observed concurrent histories + race-detector exploration against a sequential baseline",
 }
